@@ -34,7 +34,7 @@ CHECKS["C13"] = (
     "127/128/129/4095/4096/4097 bytes (symbolic fill byte) round-trip or are rejected.",
     BASE_NOTE + "Typed scalars (string, optional string, int64, int32 widening, float64 bit patterns, bool, time incl. an arbitrary instant, nil), containers (maps / lists, "
     "nesting, empty containers), field-checker-restricted writes (every setter kind, null optional values included) and the read-modify-write setters "
-    "(GetAndSetString / GetAndSetStringList) are separate harnesses of the same check (see evidence).",
+    "(GetAndSetString / GetAndSetStringList) and overwriting a stored string list with any list over old and new elements incl. repeats are separate harnesses of the same check (see evidence).",
     "6/C13")
 CHECKS["C14"] = (
     "For every strictly ordered set of <=3 byte strings of <=2 arbitrary bytes (empty string and shared prefixes included) "
@@ -107,7 +107,8 @@ CHECKS["C05"] = (
     "missing entity fails. (c) Ref-counted step: symbolic symmetric count (absent or 1..2^30), increment / decrement / SetLinkCount(any n in [0,2^31)) from either "
     "side / delete of either entity / link to a missing entity: both sides equal and positive, or both absent.",
     BASE_NOTE + "Also: links given as a field of the entity (PersistContext.SetLinkedIds) on create / update / patch with lists over two existing and one missing target; "
-    "thorough runs a history of two operations in the symmetry harness. Both sides are read from the raw list buckets and through GetLinks / IsLinked / IterateLinks. SetLinkCount with a negative count is outside (no documented meaning).",
+    "thorough runs a history of two operations in the symmetry harness; SetLinks / RemoveLinks with any subset of four adjacent targets inside the transaction that "
+    "just linked them (live-node iteration). Both sides are read from the raw list buckets and through GetLinks / IsLinked / IterateLinks. SetLinkCount with a negative count is outside (no documented meaning).",
     "6/C05")
 CHECKS["C16"] = (
     "Population of 2 slots (absent / ordinary / system, symbolic), then one transaction of 2 (quick) / 3 (thorough) symbolic operations (create / update / delete, "
@@ -123,7 +124,8 @@ CHECKS["C19"] = (
     "The in-memory ObjectStore is checked against the same reference model as C02 (and the null rules of C01): 0..2/3 objects with nullable symbolic fields, "
     "enumerated filters over non-set symbols (= null, != null, comparisons, and/or, bare bool; string, int64, float64, bool and datetime symbols - datetimes "
     "arbitrary instants of year 1..9999) x sort specifications, symbolic skip/limit; real "
-    "memSortingScanner, object comparators, ObjectCursor. Both stores equal one spec, hence each other.",
+    "memSortingScanner, object comparators, ObjectCursor; then a second query on the same store object with the sort directions reversed. Both stores equal one "
+    "spec, hence each other.",
     BASE_NOTE + "Outside: more objects, longer strings.",
     "6/C19")
 
@@ -136,7 +138,8 @@ CHECKS["C06"] = (
     "own integrity checker reports nothing (indexes and links still mirror the remaining entities). Further: an emp and a dept with the SAME id referencing / linking "
     "each other (the emp's delete leaves the dept and no back-reference), and a cascading delete of a dept with 4 adjacent referrers inside a transaction that "
     "already wrote to their store (no dangling reference value remains); cascades from two referring stores, repeated for one id inside one transaction; DeleteWhere "
-    "removes exactly the matching entities without a trace.",
+    "removes exactly the matching entities without a trace; a cascading delete refused half way (system entity among the referrers) and retried on the same "
+    "mutate context as a system context cascades completely.",
     BASE_NOTE + "Victim id is a fixed string distinct from every symbolic value. Restricting wirings and cascade are C04's subject.",
     "6/C06")
 CHECKS["C07"] = (
@@ -153,7 +156,9 @@ CHECKS["C07"] = (
     "CheckIntegrity in fix mode with repair work to do) with the "
     "k-th Bucket.Put of the transaction failing, k symbolic in 1..14 (quick) / 1..30 (thorough): if the fault was delivered the operation and the transaction "
     "return an error, the database is as before and no event fires. The first pre-commit action is registered inside the body or on the context before the "
-    "transaction (Db.Batch re-runs a failing body on its own, modelled as such); the operations run directly or inside a nested Db.Update / Db.Batch on the same context.",
+    "transaction (Db.Batch re-runs a failing body on its own, modelled as such); the operations run directly or inside a nested Db.Update / Db.Batch on the same context. "
+    "An update naming an existing / missing fk target (fk index or fk constraint wiring, with or without field checker) of a plain or child-store entity through "
+    "either store of the family: rejected iff missing, then nothing changes and no event fires.",
     BASE_NOTE + "'Database left exactly as before' rests on bbolt's rollback, which the mbolt model has by construction (assumed of bbolt); what is checked "
     "is that the error which triggers it always reaches the caller. Storage faults are injected at Bucket.Put only: natively through the failpoint bbolt's "
     "authors placed there (gofail marker beforeBucketPut, enabled by a build overlay of bbolt's bucket.go), in the model at the same position; failing Delete / "
@@ -210,7 +215,9 @@ CHECKS["C10"] = (
     "Typing / evaluation half of C10. ~900 grammatical sentences covering every left operand kind (fields of each type, map element, set used as scalar, "
     "unknown symbol, anyOf / allOf / count incl. sub-query) x every operator form x every literal kind (ill-typed mixes included), bool forms, isEmpty, sort / skip / "
     "limit, string literals with escapes: the real lexer/parser (native) + listener + typer return a query or an error, never a panic; every typed query is then "
-    "evaluated over symbolic data (each field null or not, sets empty or not, symbolic values) without panicking. Store level: every query shape on a never-"
+    "evaluated over symbolic data (each field null or not, sets empty or not, symbolic values) without panicking. Store level: 25 symbol kinds of one store (scalars of every "
+    "type, id, set, fk, dotted scalar, set reached through a fk, set of sets, map element, map, function symbols, mapped symbol, unknown) x bare / anyOf / allOf / count x "
+    "seven operator forms, isEmpty, sub-query filter and source positions, sort field (1750 queries) on all-null and on cross-referencing entities; and every query shape on a never-"
     "written store, an emptied store, one and three entities with all fields null (sorting compares null with null; QueryIds, IterateIds, IterateValidIds); cursor constructors on empty inputs.",
     BASE_NOTE + "Rejection of unrecognised characters is checked for an enumerated family only: four base queries x every insertion position outside a string "
     "literal x 20 characters that occur in no token (1620 texts), each parsed by the real lexer/parser natively (the result is what the executor replays): all are "
